@@ -12,6 +12,7 @@ import (
 
 	"verifharness/kit"
 	"verifharness/respx"
+	"verifharness/srv"
 )
 
 // PipeCase: clients that pipeline (several commands in one write, then the replies) on keys of their own,
@@ -25,6 +26,10 @@ type PipeCase struct {
 	Width    int `json:"width"` // commands per batch (rounded to whole groups)
 	Churn    int `json:"churners"`
 	ChurnOps int `json:"churn_ops"`
+	// Crowd: that many further connections each send one INCR at the same instant (commit batches of dozens
+	// of entries), Waves times
+	Crowd int `json:"crowd,omitempty"`
+	Waves int `json:"waves,omitempty"`
 }
 
 func execPipe(c PipeCase) kit.Outcome {
@@ -40,7 +45,7 @@ func execPipe(c PipeCase) kit.Outcome {
 	caseTag := fmt.Sprintf("pp%d", time.Now().UnixNano()%1000000)
 	o := kit.Outcome{NonTrivial: c.Pipers > 0, Labels: []string{"pipelining-clients", "connection-churn"}}
 	var wg sync.WaitGroup
-	fails := make(chan string, c.Pipers+c.Churn)
+	fails := make(chan string, c.Pipers+c.Churn+1)
 	var acked int64
 	stop := make(chan struct{})
 	for p := 0; p < c.Pipers; p++ {
@@ -126,6 +131,48 @@ func execPipe(c PipeCase) kit.Outcome {
 			}
 		}(k)
 	}
+	// the crowd: many connections, one command each, released together
+	if c.Crowd > 0 {
+		wg.Add(1)
+		go func() {
+			defer wg.Done()
+			conns := make([]*srv.Conn, 0, c.Crowd)
+			for i := 0; i < c.Crowd; i++ {
+				if cn, err := cl.Dial(1 + i%3); err == nil {
+					conns = append(conns, cn)
+				}
+			}
+			defer func() {
+				for _, cn := range conns {
+					cn.Close()
+				}
+			}()
+			for w := 0; w < c.Waves; w++ {
+				start := make(chan struct{})
+				var cw sync.WaitGroup
+				var missing int64
+				for _, cn := range conns {
+					cw.Add(1)
+					go func(cn *srv.Conn) {
+						defer cw.Done()
+						<-start
+						v, err := cn.DoS(15*time.Second, "INCR", caseTag+":shared")
+						if err == nil && v.Kind == respx.Integer {
+							atomic.AddInt64(&acked, 1)
+						} else {
+							atomic.AddInt64(&missing, 1)
+						}
+					}(cn)
+				}
+				close(start)
+				cw.Wait()
+				if m := atomic.LoadInt64(&missing); m > 0 {
+					fails <- fmt.Sprintf("wave %d: %d connections sent one INCR each at the same moment to a healthy cluster, %d of them got no reply within 15 s", w, len(conns), m)
+					return
+				}
+			}
+		}()
+	}
 	wg.Wait()
 	close(stop)
 	select {
@@ -177,7 +224,8 @@ func TestPipelinedClients(t *testing.T) {
 	kit.Check(t, kit.Spec[PipeCase]{Sub: "pipe", Quick: 2, Thorough: 20, NoShrink: true,
 		Gen: func(t *rapid.T) PipeCase {
 			return PipeCase{Pipers: rapid.IntRange(2, 5).Draw(t, "pipers"), Batches: rapid.SampledFrom([]int{10, 30}).Draw(t, "batches"), Width: rapid.SampledFrom([]int{6, 12, 30}).Draw(t, "width"),
-				Churn: rapid.IntRange(2, 6).Draw(t, "churn"), ChurnOps: rapid.SampledFrom([]int{40, 120}).Draw(t, "churnops")}
+				Churn: rapid.IntRange(2, 6).Draw(t, "churn"), ChurnOps: rapid.SampledFrom([]int{40, 120}).Draw(t, "churnops"),
+				Crowd: rapid.SampledFrom([]int{0, 70, 150}).Draw(t, "crowd"), Waves: rapid.IntRange(1, 3).Draw(t, "waves")}
 		},
 		Exec: execPipe})
 }
